@@ -3,6 +3,7 @@
 import json, subprocess
 
 HOOK_COMMITS = ["87ef81a", "e38926a"]
+FIX_COMMITS = ["5be8c90", "47e4ff7", "7177454", "0497b13", "b9b128e", "7b0b11e", "20cde3f", "58dba13"]
 
 # id -> (technique, level text, level note, design ref)
 CLAIMED = {
@@ -28,6 +29,31 @@ CLAIMED = {
          "Exploration with exhaustive cores: admission predicate of requests, range of StatusCode through every constructor, reserved-name protection, URL to authority/path mapping.",
          "URLs generated in WHATWG-normalised form; status forms the statement leaves open ('+', leading zeros) accepted either way but never out of range.", "DESIGN.md §5 C18"),
 }
+
+
+CLAIMED.update({
+ "C01": ("stateful property-based testing over real loop-back QUIC connections: generated concurrent stream workloads (wtransport<->wtransport, raw peer -> wtransport with the preamble cut at every offset, wtransport -> raw recorder), identity oracle on bytes + end-of-stream",
+         "Exploration: generated payload lengths/contents (incl. framing look-alikes), write/read plans, 1..12(24) concurrent streams, windows 1 KiB..default, three runtime flavours; exhaustive preamble-cut x role x kind x session-id-width table. Delivery is judged by bounded liveness (timeout must reproduce 4/4).",
+         "Task interleavings are sampled, not enumerated; transport = quinn over loop-back UDP; receiver reads each stream in its own task.", "DESIGN.md §5 C01"),
+ "C07": ("fault-injecting property-based testing with a raw QUIC peer: generated scripts of stalled streams (no byte / partial preamble / silent / unread) interleaved with healthy streams, datagrams and a final close; bounded-liveness oracle",
+         "Exploration: healthy streams, datagrams and the exact close value must still arrive while k stalled streams exist, for generated orders, kinds, roles and runtime flavours; public-API variant with un-awaited opening futures.",
+         "Bounded liveness (5 s bound vs ~10 ms typical; timeout must reproduce 4/4).", "DESIGN.md §5 C07"),
+ "C08": ("model-based property-based testing: generated stream counts vs concurrency limit, accept tasks, poll-count cancellation of accept futures, sender pace, small windows; multiset oracle (opened == delivered exactly once, own bytes)",
+         "Exploration: every cancellation point reachable by polling an accept future 0..4 times then dropping it, 1..4 accepting tasks per kind, N up to 6x the stream limit, wtransport and raw senders in both roles, foreign-session streams must not be delivered.",
+         "Schedules are sampled (three runtime flavours, poll-count cancellation); delivery judged by bounded liveness.", "DESIGN.md §5 C08"),
+ "C09": ("property-based testing of termination: generated cause x pending-operation set x handle clones x timing against a raw peer / UDP relay; admissible-error-set oracle; model-based op sequences over the hook-exposed shared_result / bichannel",
+         "Exploration: for each generated cause every pending and later call must fail within the bound with an error naming the cause (exact code/reason) or a local close; dropped handles must close the connection at the peer; set-once / FIFO models for the driver's utility channels.",
+         "Bounded liveness; admissible sets follow the statement (cause or library-initiated local close).", "DESIGN.md §5 C09"),
+ "C10": ("exhaustive boundary table + property-based testing of the hash-pinning verifier with injected time against the four-way conjunction; enumerated end-to-end policy x identity matrix over real handshakes",
+         "Exploration with an exhaustive core: 2 940 boundary cells (validity around 14 days to the second, now on each side of both ends, key algorithm, hash-set shape) + random cases + 80 real handshakes.",
+         "Certificates generated with rcgen; x509 parsing by x509-parser inside the library.", "DESIGN.md §5 C10"),
+ "C19": ("property-based testing with independent X.509 parsing (x509-parser) of generated identities, PEM store/load round trips through real files, digest format round trips (exhaustive per byte position), corrupt-input tables",
+         "Exploration: SAN lists, builder validity paths, chains 0..5, every prefix/bit-flip of a certificate, every byte value at every digest position, malformed PEM/DER/digest text must be rejected without panic.",
+         "Harness-side PEM codec and x509-parser are trusted.", "DESIGN.md §5 C19"),
+ "C20": ("exhaustive configuration matrix (bind presets x builder paths x roles, TLS version/ALPN handshakes, idle-timeout boundaries) + property-based testing of transport settings + behavioural samples through a UDP relay",
+         "Exploration with exhaustive cores: 407 bind cells checked by getsockname/getsockopt on the process's own fd, 60 in-memory TLS handshakes, 60 QUIC ALPN handshakes, 200 idle-timeout boundary cells, 300k generated transport configurations, behavioural idle/keep-alive/migration/reload cases.",
+         "Linux forces IPV6_V6ONLY on sockets bound to a specific v6 address (asserted only for wildcard binds); timing bounds generous and re-executed before judged.", "DESIGN.md §5 C20"),
+})
 
 E2E_PENDING = {
  "C12": "end-to-end half pending", "C13": "end-to-end half pending", "C17": "end-to-end half pending", "C18": "end-to-end half pending",
